@@ -16,6 +16,9 @@ var silent = log.NewSilentLogger()
 
 var staleSeen, closeHangSeen atomic.Bool
 
+// stuckSeen counts scenarios with large payloads in which a verified burst never arrived completely.
+var stuckSeen atomic.Int64
+
 // ---------------------------------------------------------------- receivers (prc level)
 
 // recProc is a recording prc.Process registered in a node's ResourceController.
@@ -107,23 +110,38 @@ func newPNode(w *world, idx, nrecv int) (*pnode, error) {
 	return n, nil
 }
 
-// send hands message seq of flow f to the node's resource controller exactly as a user of the package does.
-func (n *pnode) send(w *world, f *flow, seq int) {
+// build makes message seq of flow f in the form the flow hands it over (raw payload or *prc.MessageWrapper).
+func (n *pnode) build(w *world, f *flow, seq int) prc.Message {
+	var msg prc.Message = payload(f.PK, key(f.ID, seq), w.contentOf(f.ID, seq))
+	if f.Wrap {
+		msg = prc.WrapMessage(f.senderPid, f.recvPid.Clone(), msg)
+	}
+	return msg
+}
+
+// deliver hands a built message of flow f to the node's resource controller exactly as a user of the package does.
+func (n *pnode) deliver(w *world, f *flow, msg prc.Message) {
 	defer func() {
 		if r := recover(); r != nil {
 			w.notePanic("send on flow "+f.ID, r)
 		}
 	}()
-	var msg prc.Message = payload(f.PK, key(f.ID, seq), content(f.ID, seq))
-	if f.Wrap {
-		msg = prc.WrapMessage(f.senderPid, f.recvPid.Clone(), msg)
-	}
 	proc := n.rc.GetProcess(f.ref)
 	if f.System {
 		proc.DeliverySystemMessage(f.ref, f.senderPid, nil, msg)
 	} else {
 		proc.DeliveryUserMessage(f.ref, f.senderPid, nil, msg)
 	}
+}
+
+// send = build + deliver of message seq of flow f.
+func (n *pnode) send(w *world, f *flow, seq int) {
+	defer func() {
+		if r := recover(); r != nil {
+			w.notePanic("send on flow "+f.ID, r)
+		}
+	}()
+	n.deliver(w, f, n.build(w, f, seq))
 }
 
 // stackOf returns the (shortened) stack of the first goroutine whose stack mentions fn.
@@ -182,6 +200,31 @@ func (r *prcRun) burst(f *flow, n int, must bool) {
 	}
 }
 
+// burstSpec is burst for a burst of the scenario: the large payloads of the burst are planned first.
+func (r *prcRun) burstSpec(f *flow, b Burst, must bool) {
+	for _, g := range b.Big {
+		if g.At >= 0 && g.At < b.N && g.Bytes > 0 {
+			r.w.setSize(f, f.sent+g.At, g.Bytes)
+		}
+	}
+	r.burst(f, b.N, must)
+}
+
+// burstPrepared hands over n messages of flow f back to back: they are built beforehand, so that the handing over
+// is much faster than the stream drains and the per-peer queue grows to many batches. Never "must": the caller
+// closes the link right behind them.
+func (r *prcRun) burstPrepared(f *flow, n int) {
+	nd := r.nodes[f.Src]
+	msgs := make([]prc.Message, n)
+	for i := range msgs {
+		msgs[i] = nd.build(r.w, f, f.sent+i)
+	}
+	for _, m := range msgs {
+		nd.deliver(r.w, f, m)
+		f.sent++
+	}
+}
+
 func (r *prcRun) allMustDelivered() bool {
 	for _, f := range r.w.order {
 		want := 0
@@ -235,7 +278,7 @@ func runPrc(sc *Scenario) *Result {
 	for i, fs := range sc.Flows {
 		dst := 1 - fs.Src
 		f := &flow{ID: fmt.Sprintf("f%d", i), Src: fs.Src, Dst: dst, Recv: fmt.Sprintf("/r%d", fs.Recv), System: fs.System,
-			Wrap: fs.Wrap, PK: fs.PK, Mode: "tell"}
+			Wrap: fs.Wrap, PK: fs.PK, Lean: fs.Lean, Mode: "tell"}
 		if fs.Sender >= 0 {
 			f.Sender = fmt.Sprintf("/s%d", fs.Sender)
 			f.senderPid = prc.NewProcessId(w.addr[fs.Src], f.Sender)
@@ -293,7 +336,7 @@ func runPrc(sc *Scenario) *Result {
 	}
 
 	for e := 0; e < len(sc.Epochs); e++ {
-		if e > 0 {
+		if e > 0 && e-1 < len(sc.Outages) { // (the payload-size scenarios have several epochs and no outage)
 			if !r.outage(sc.Outages[e-1], owner) {
 				break
 			}
@@ -304,12 +347,15 @@ func runPrc(sc *Scenario) *Result {
 			go func(si int) {
 				defer wg.Done()
 				for _, b := range sc.Epochs[e][si] {
-					r.burst(w.order[b.Flow], b.N, true)
+					r.burstSpec(w.order[b.Flow], b, true)
 				}
 			}(si)
 		}
 		wg.Wait()
 		if !waitDelivery(20*time.Second, r.allMustDelivered) {
+			if m, h := sc.bigCount(); m+h > 0 {
+				stuckSeen.Add(1)
+			}
 			break // the flow monitor reports what is missing
 		}
 	}
@@ -322,6 +368,21 @@ func runPrc(sc *Scenario) *Result {
 		res.Closed += int(n.closed.Load())
 	}
 	return res
+}
+
+// quiet waits until flow f has seen no arrival for `still` (false: arrivals kept coming for `max`).
+func (r *prcRun) quiet(f *flow, still, max time.Duration) bool {
+	deadline := time.Now().Add(max)
+	last, since := f.arrivals.Load(), time.Now()
+	for time.Now().Before(deadline) {
+		time.Sleep(4 * time.Millisecond)
+		if n := f.arrivals.Load(); n != last {
+			last, since = n, time.Now()
+		} else if time.Since(since) >= still {
+			return true
+		}
+	}
+	return false
 }
 
 // outage closes the sharing of one node (optionally while traffic is in flight), re-opens it, and checks
@@ -360,6 +421,16 @@ func (r *prcRun) outage(o Outage, owner func(int) []*flow) bool {
 	if closeHangSeen.Load() {
 		closeWD = 1500 * time.Millisecond
 	}
+	peer := r.nodes[1-o.Node]
+	peerClosed := peer.closed.Load()
+	var qf *flow
+	if o.Queue > 0 {
+		// close with a long queue: the whole burst is handed over, Close() follows at once
+		qf = r.w.order[o.QFlow]
+		before := qf.deliveredCount()
+		r.burstPrepared(qf, o.Queue)
+		r.res.QueuedAtClose = append(r.res.QueuedAtClose, o.Queue-(qf.deliveredCount()-before))
+	}
 	fin, p := withWatchdog(closeWD, func() { x.sh.Close() })
 	r.res.Breaks++
 	if o.Inflight {
@@ -384,6 +455,15 @@ func (r *prcRun) outage(o Outage, owner func(int) []*flow) bool {
 	if p != nil {
 		r.viol("link:close:panic", fmt.Sprintf("Shared.Close() of node %d panicked: %v", o.Node, p), nil)
 		return false
+	}
+	if qf != nil {
+		// The receiver is still being handed the tail of the closed stream. Probing through a new stream now would
+		// be the situation of the open finding "re-dial overlaps the old stream"; this family is about the order on
+		// ONE stream, so the old stream has to be over (the peer's stream loop has ended, nothing arrives any more)
+		// before the link is used again. If that cannot be established the scenario ends here (order is judged).
+		if !waitFor(10*time.Second, func() bool { return peer.closed.Load() > peerClosed }) || !r.quiet(qf, 40*time.Millisecond, 5*time.Second) {
+			return false
+		}
 	}
 	time.Sleep(time.Duration(o.DownMs) * time.Millisecond)
 	var err error
